@@ -124,10 +124,13 @@ SendDone(t, res) ==
      \/ /\ SendKind \in {"shared", "sched"} /\ opt.sq > 0 /\ Len(sendQ) < opt.sq /\ res = "ok"
         /\ sendQ' = Append(sendQ, m) /\ accepted' = Append(accepted, m)
         /\ UNCHANGED <<psendQ, txHold, readyQ>>
-     \/ \* WriteQLen 0 on a shared queue: rendez-vous with an idle sender goroutine
+     \/ \* WriteQLen 0 on a shared queue: rendez-vous with an idle sender goroutine - or with the sender goroutine of a
+        \* connection that has been removed and is at its select once more ("lingering", see LingerTake: with no buffer
+        \* the one more message it may take comes straight from a waiting Send; its transport send then fails)
         /\ SendKind = "shared" /\ opt.sq = 0 /\ res = "ok"
-        /\ \E p \in pipes : /\ txHold[p] = NULL /\ ~pclosed[p]
-                            /\ txHold' = [txHold EXCEPT ![p] = [m |-> m, st |-> "go"]]
+        /\ \E p \in Pipe : /\ \/ p \in pipes /\ txHold[p] = NULL /\ ~pclosed[p]
+                              \/ txHold[p] # NULL /\ txHold[p].st = "linger"
+                           /\ txHold' = [txHold EXCEPT ![p] = [m |-> m, st |-> "go"]]
         /\ accepted' = Append(accepted, m)
         /\ UNCHANGED <<sendQ, psendQ, readyQ>>
      \/ /\ SendKind = "routed" /\ ~pclosed[m.to] /\ res = "ok"
@@ -310,7 +313,7 @@ SendReady(t) ==
      \/ call[t].due >= 0 /\ now >= call[t].due
      \/ SendKind = "routed" /\ pclosed[m.to]
      \/ SendKind \in {"shared", "sched"} /\ opt.sq > 0 /\ Len(sendQ) < opt.sq
-     \/ SendKind = "shared" /\ opt.sq = 0 /\ \E p \in pipes : txHold[p] = NULL /\ ~pclosed[p]
+     \/ SendKind = "shared" /\ opt.sq = 0 /\ \E p \in Pipe : (p \in pipes /\ txHold[p] = NULL /\ ~pclosed[p]) \/ (txHold[p] # NULL /\ txHold[p].st = "linger")
      \/ SendKind = "routed" /\ ~pclosed[m.to] /\ (IF opt.sq > 0 THEN Len(psendQ[m.to]) < opt.sq ELSE txHold[m.to] = NULL /\ psendQ[m.to] = <<>>)
 RecvReady(t) ==
   /\ call[t] # NULL /\ call[t].op = "recv"
